@@ -124,7 +124,9 @@ ClassModel(
         "current_state_value": C(SMQ + "current_state_value@setter"),
     },
     methods={"_get_initial_state": C(SMQ + "_get_initial_state")},
+    py_fields={},
 )
+CLASSES["Val"].truthy_fn = lambda path, v: truthy(v.e)
 
 ClassModel("Model", fields={"state": "Val"})
 
@@ -218,7 +220,8 @@ def istate_ref(ex, path, recv, ca, node):
 STQ = "statemachine.state:InstanceState."
 ClassModel(
     "IState",
-    fields={"_state": "State", "_machine": "StateMachine"},
+    # `_id` exists only on the dead-referent path of InstanceState.id (`self._state() or self`)
+    fields={"_state": "State", "_machine": "StateMachine", "_id": "str"},
     methods={"_state": istate_ref},
     props={
         "transitions": INL(STQ + "transitions"),
@@ -421,6 +424,15 @@ def wf_registry(s):
                      patterns=[reg_has(s, k)])
 
 
+def wf_cache(s):
+    """The per-instance state cache maps a class-level State to ITS InstanceState view of this machine."""
+    st = z3.Const("st!wc", Int)
+    v = z3.Select(s.sel("idict.val", W.CACHE), st)
+    return z3.ForAll([st], z3.Implies(z3.Select(s.sel("idict.has", W.CACHE), st), z3.And(
+        v >= FIRST_ADDR, v < s["ghost.alloc"], s.sel("IState._state", v) == st, s.sel("IState._machine", v) == W.SM)),
+        patterns=[z3.Select(s.sel("idict.has", W.CACHE), st)])
+
+
 def dicts_kept(s0, s):
     o = z3.Const("o!dk", Int)
     return z3.ForAll([o], z3.Implies(z3.And(o >= 0, o < s0["ghost.alloc"], o != W.REGD), z3.And(
@@ -487,6 +499,7 @@ def env_effect(s0, s, glog_grows_by=None):
         )),
         "env:queued-items-valid": z3.Implies(queue_items_valid(s0), queue_items_valid(s)),
         "env:registry-stays-wf": z3.Implies(wf_registry(s0), wf_registry(s)),
+        "env:state-cache-stays-wf": z3.Implies(wf_cache(s0), wf_cache(s)),
         "env:dicts-of-old-objects-kept": dicts_kept(s0, s),
         "env:registry-grows-only-by-empty-groups": registry_monotone(s0, s),
         "env:cb-log-grows": s.g("ncb") >= s0.g("ncb"),
